@@ -346,9 +346,18 @@ pub fn arb_case(text: bool) -> BoxedStrategy<Case15> {
     (1usize..=5)
         .prop_flat_map(move |n| {
             let opts = if text { arb_text_opts().prop_map(Some).boxed() } else { Just(None).boxed() };
-            (arb_names(n), vec(vec(arb_cell(text), n), 0..8), prop::sample::select(vec!["\n", "\n", "\r\n"]), opts)
+            (arb_names(n), vec(vec(arb_cell(text), n), 0..8), prop::sample::select(vec!["\n", "\n", "\r\n"]), opts, prop::option::weighted(0.2, (any::<u16>(), any::<u16>())))
         })
-        .prop_map(|(names, rows, rowsep, text)| Case15 { names, rows, rowsep: rowsep.to_string(), text })
+        .prop_map(|(mut names, rows, rowsep, text, dup)| {
+            // now and then two selections carry the same name: still N columns
+            if let Some((a, b)) = dup {
+                let (i, j) = (pick_idx(a, names.len()), pick_idx(b, names.len()));
+                if i != j {
+                    names[j] = names[i].clone();
+                }
+            }
+            Case15 { names, rows, rowsep: rowsep.to_string(), text }
+        })
         .boxed()
 }
 
@@ -461,6 +470,7 @@ impl Check for C15Csv {
                 .class_if(case.rowsep == "\r\n", "crlf_rows")
                 .class_if(case.rows.iter().any(|r| r.last().map(|c| c.is_none()).unwrap_or(false)), "absent_last_field")
                 .class_if(case.names.iter().any(|n| n.contains(',') || n.contains('"')), "name_needs_quoting")
+                .class_if({ let mut v = case.names.clone(); v.sort(); v.windows(2).any(|w| w[0] == w[1]) }, "duplicate_selection_name")
                 .obs(json!({"stdout": esc_trunc(&o.stdout, 300)})),
         )
     }
